@@ -1,4 +1,5 @@
 import Mdsort.Proofs.Interp
+import Mdsort.Proofs.Captures
 
 /-!
 # C12 - interpolation is exact and single-pass: message content is data, never template
@@ -51,6 +52,181 @@ example :
 
 /-- The template `\1.x` is outside the documented syntax. -/
 example : Spec.itokens [92, 49, 46, 120] = .undefined := by
+  decide +kernel
+
+/-! ## Captures are exact; back-references are local to a rule -/
+
+/-- A header / body / date pattern that matched (`regexec` reported `groups` on the subject `val`)
+appends exactly one entry.  Its i-th captured text is, for a set group `[so, eo)`, the bytes
+`val[so], ..., val[eo-1]` in order - lower-cased iff the pattern has flag `l`, upper-cased iff it
+has `u` (`Spec.capture`, `Spec.caseFold`; both flags together are rejected by the parser, the
+implementation would then uppercase) - and the empty string for an unset group. -/
+theorem C12_captures_exact (env : Env) (ty : MType) (lno part : Nat) (p : Pat) (key val : Bytes) (st : St)
+    (groups : List (Option (Nat × Nat))) (hty : ty = .header ∨ ty = .body ∨ ty = .date)
+    (hrx : env.rx p val = .ok groups) :
+    ∃ e : Match, exprRegexec env ty lno part p key val st = (.match, { st with ml := st.ml ++ [e] }) ∧
+      e.ty = ty ∧ e.part = part ∧
+      e.subs = groups.map fun g => { str := Spec.capture p.lcase p.ucase val g, off := g } :=
+  ⟨_, Proofs.exprRegexec_ok env ty lno part p key val st groups hty hrx, rfl, rfl, rfl⟩
+
+/-- For offsets inside the subject the specified capture is the corresponding part of the subject. -/
+theorem C12_capture_is_slice (l u : Bool) (a m b : Bytes) :
+    Spec.capture l u (a ++ m ++ b) (some (a.length, a.length + m.length)) = m.map (Spec.caseFold l u) :=
+  Proofs.capture_split l u a m b
+
+/-- `\M.N` looks at the entries AFTER the last `match` sentinel only: it is the N-th capture of the
+M-th interpolating (header / body) entry among them. -/
+theorem C12_backref_rule_local (pre entries : MatchList) (sentinel : Match) (hs : sentinel.ty = .mtch)
+    (hent : ∀ m ∈ entries, m.ty ≠ .mtch) (br : Backref) :
+    matchBackref (pre ++ [sentinel] ++ entries) br =
+      ((entries.filter (·.ty.isInterp))[br.mi]?).bind fun m => (m.subs[br.si]?).map (·.str) :=
+  Proofs.matchBackref_rule_local pre entries sentinel hs hent br
+
+/-- Captures of other rules are never used: what precedes the rule's sentinel is irrelevant. -/
+theorem C12_backref_ignores_other_rules (pre pre' entries : MatchList) (sentinel sentinel' : Match)
+    (hs : sentinel.ty = .mtch) (hs' : sentinel'.ty = .mtch) (hent : ∀ m ∈ entries, m.ty ≠ .mtch) (br : Backref) :
+    matchBackref (pre ++ [sentinel] ++ entries) br = matchBackref (pre' ++ [sentinel'] ++ entries) br :=
+  Proofs.matchBackref_pre_irrelevant pre pre' entries sentinel sentinel' hs hs' hent br
+
+/-- With no sentinel before it an entry can refer to nothing. -/
+theorem C12_backref_needs_sentinel (before : MatchList) (h : ∀ m ∈ before, m.ty ≠ .mtch) (br : Backref) :
+    matchBackref before br = none :=
+  Proofs.matchBackref_no_sentinel before h br
+
+/-- End to end, for `match header ... /re/ ... move "\N"`: after the rule's sentinel the pattern
+matched with `groups`; whatever other rules left before the sentinel (`pre`) and whatever follows
+in this rule (`post`: further conditions, the actions), `\N` is the specified capture of group N
+of that match, and an error if the pattern has no group N. -/
+theorem C12_capture_end_to_end (env : Env) (ty : MType) (lno part : Nat) (p : Pat) (key val : Bytes) (f : MFlags)
+    (groups : List (Option (Nat × Nat))) (pre post : MatchList) (sentinel : Match) (hs : sentinel.ty = .mtch)
+    (hty : ty = .header ∨ ty = .body) (hpost : ∀ m ∈ post, m.ty ≠ .mtch)
+    (hrx : env.rx p val = .ok groups) (N : Nat) :
+    matchBackref ((exprRegexec env ty lno part p key val { ml := pre ++ [sentinel], flags := f }).2.ml ++ post) ⟨0, N⟩ =
+      (groups[N]?).map (Spec.capture p.lcase p.ucase val) :=
+  Proofs.capture_end_to_end env ty lno part p key val f groups pre post sentinel hs hty hpost hrx N
+
+/-! ## Single pass -/
+
+/-- `lit1 \1 lit2` with literal parts free of `\` and `$` (and `lit2` not continuing the
+back-reference): the result is `lit1 ++ capture ++ lit2` for EVERY captured text - there is no
+hypothesis on `cap1`, which may contain `\2`, `${path}`, `${`: it is copied, never scanned. -/
+theorem C12_single_pass (before : MatchList) (macros : Option (List (Bytes × Bytes))) (lit1 lit2 cap1 : Bytes)
+    (h1 : Proofs.Plain lit1) (h2 : Proofs.Plain lit2) (hc : Proofs.CleanStart lit2)
+    (hm : matchBackref before ⟨0, 1⟩ = some cap1) :
+    interpolate before macros (lit1 ++ [92, 49] ++ lit2) = some (lit1 ++ cstr cap1 ++ lit2) :=
+  Proofs.interpolate_one_ref before macros lit1 lit2 cap1 h1 h2 hc hm
+
+/-- A template without `\` and `$` is its own value. -/
+theorem C12_literal (before : MatchList) (macros : Option (List (Bytes × Bytes))) (t : Bytes) (h : Proofs.Plain t) :
+    interpolate before macros t = some t :=
+  Proofs.interpolate_plain before macros t h
+
+/-! ## An interpolation error has no effect -/
+
+/-- Missing group: the template is an error. -/
+theorem C12_missing_group_is_error (before : MatchList) (macros : Option (List (Bytes × Bytes))) (lit1 lit2 : Bytes)
+    (h1 : Proofs.Plain lit1) (hc : Proofs.CleanStart lit2) (hm : matchBackref before ⟨0, 1⟩ = none) :
+    interpolate before macros (lit1 ++ [92, 49] ++ lit2) = none :=
+  Proofs.interpolate_missing_group before macros lit1 lit2 h1 hc hm
+
+/-- Unknown macro (or a macro where no macro table exists): the template is an error. -/
+theorem C12_unknown_macro_is_error (before : MatchList) (macros : Option (List (Bytes × Bytes)))
+    (lit1 name rest : Bytes) (h1 : Proofs.Plain lit1) (hn : ∀ c ∈ name, c ≠ 125)
+    (hm : ∀ ms, macros = some ms → ms.find? (·.1 == name) = none) :
+    interpolate before macros (lit1 ++ [36, 123] ++ name ++ [125] ++ rest) = none :=
+  Proofs.interpolate_unknown_macro before macros lit1 name rest h1 hn hm
+
+/-- Unterminated `${`: the template is an error. -/
+theorem C12_unterminated_macro_is_error (before : MatchList) (macros : Option (List (Bytes × Bytes)))
+    (lit1 r : Bytes) (h1 : Proofs.Plain lit1) (hr : ∀ c ∈ r, c ≠ 125) :
+    interpolate before macros (lit1 ++ [36, 123] ++ r) = none :=
+  Proofs.interpolate_unterminated before macros lit1 r h1 hr
+
+/-- One failing template of one entry (`Proofs.templates`: the path of move / isdirectory, each
+string of label / exec / command, the value of add-header) makes `matches_interpolate` fail as a
+whole: no partially interpolated list is ever handed on. -/
+theorem C12_failed_template_fails_all (env : Env) (ml : MatchList) (msgs : Nat → Msg) (i : Nat) (mh : Match)
+    (t : Bytes) (hi : ml[i]? = some mh) (ht : t ∈ Proofs.templates mh)
+    (hf : interpolate (ml.take i) (some [(ofString "path", env.path)]) t = none) :
+    matchesInterpolate env ml msgs = none :=
+  Proofs.matchesInterpolate_none_of_template env ml msgs i mh t hi ht hf
+
+/-- ... and then, whatever the calls return, `processMessage` issues no mutating call and starts no
+process for that message: every call is `openat(O_RDONLY)` / `read` / `close`, after the parse
+phase only `close`; the outcome is the error flag, the files, the log and the maildir unchanged. -/
+theorem C12_error_no_effect (env : PEnv) (orc : EvalOracles) (expr : Expr) (md : Maildir) (name : Bytes)
+    (st : MainSt) (d : Handle) (content p n : Bytes) (mf : MFlags)
+    (hd : md.dirH = some d) (hf : st.files.get md.path name = some content)
+    (hp : pathjoin PATH_MAX md.path name = some p) (hn : strlcpyFits NAME_MAX1 name = some n)
+    (hmf : flagsParse n = some mf)
+    (hev : (eval (Proofs.msgEnv env orc p) (parseMessage content) expr 0 (parseMessage content)
+      { ml := [], flags := mf }).1 = .match)
+    (hint : (matchesInterpolate (Proofs.msgEnv env orc p)
+      (eval (Proofs.msgEnv env orc p) (parseMessage content) expr 0 (parseMessage content) { ml := [], flags := mf }).2.ml
+      (partMsg (parseMessage content) ((getAttachments (parseMessage content)).getD []))).isNone = true)
+    (orcl : Nat → Call → Res) :
+    (runOracle orcl (processMessage env orc expr md name st) 0 []).1 = ({ st with error := true }, md) ∧
+    (∀ x ∈ (runOracle orcl (processMessage env orc expr md name st) 0 []).2,
+      ((∃ nm, x.1 = .openRd d nm) ∨ (∃ fd, x.1 = .read fd) ∨ ∃ fd, x.1 = .close fd) ∧
+        x.1.mutating = false ∧ x.1 ≠ .fork) ∧
+    ∃ L, (runOracle orcl (processMessage env orc expr md name st) 0 []).2 =
+        (runOracle orcl (messageParseP d md.path name content) 0 []).2 ++ L ∧ ∀ x ∈ L, ∃ fd, x.1 = .close fd :=
+  Proofs.processMessage_interp_error_run' env orc expr md name st d content p n mf hd hf hp hn hmf hev hint orcl
+
+/-! ## Non-vacuity (captures, single pass, error) -/
+
+/-- Subject `User@x.org`, flag `l`, groups `[0,6)`, `[0,4)` and an unset one: the entry carries
+`user@x`, `user` and the empty string. -/
+example :
+    (exprRegexec Proofs.exampleEnv .header 3 0 { src := [46], lcase := true } [70, 114, 111, 109]
+      [85, 115, 101, 114, 64, 120, 46, 111, 114, 103]
+      { ml := [{ ty := .mtch, lno := 3, part := 0 }], flags := MFlags.empty }).2.ml =
+    [{ ty := .mtch, lno := 3, part := 0 },
+     { ty := .header, lno := 3, part := 0, pat := some { src := [46], lcase := true },
+       subs := [⟨[117, 115, 101, 114, 64, 120], some (0, 6)⟩, ⟨[117, 115, 101, 114], some (0, 4)⟩, ⟨[], none⟩] }] := by
+  decide +kernel
+
+/-- Another rule captured `o`; this rule captured `ab`, `b`: `\1` is `b`. -/
+example :
+    matchBackref
+      ([{ ty := .mtch, lno := 1, part := 0 },
+        { ty := .header, lno := 1, part := 0, subs := [⟨[111], some (0, 1)⟩, ⟨[111], some (0, 1)⟩] }] ++
+       [{ ty := .mtch, lno := 2, part := 0 }] ++
+       [{ ty := .header, lno := 2, part := 0, subs := [⟨[97, 98], some (0, 2)⟩, ⟨[98], some (1, 2)⟩] },
+        { ty := .move, lno := 2, part := 0 }]) ⟨0, 1⟩ = some [98] := by
+  decide +kernel
+
+/-- The captured text is `\2${path}${`; the template `a-\1/b` yields `a-\2${path}${/b`. -/
+example :
+    Proofs.Plain [97, 45] ∧ Proofs.Plain [47, 98] ∧ Proofs.CleanStart [47, 98] ∧
+    interpolate
+      [{ ty := .mtch, lno := 1, part := 0 },
+       { ty := .header, lno := 1, part := 0,
+         subs := [⟨[120], some (0, 1)⟩, ⟨[92, 50, 36, 123, 112, 97, 116, 104, 125, 36, 123], some (0, 11)⟩] }]
+      (some [([112, 97, 116, 104], [47, 109])]) ([97, 45] ++ [92, 49] ++ [47, 98]) =
+    some ([97, 45] ++ [92, 50, 36, 123, 112, 97, 116, 104, 125, 36, 123] ++ [47, 98]) := by
+  decide +kernel
+
+/-- Message `/m/new/1` (`Subject: x`), rule `match all move "\1"`: evaluation matches, there is
+no group 1, interpolation fails - the hypotheses of `C12_error_no_effect` hold. -/
+example :
+    pathjoin PATH_MAX [47, 109, 47, 110, 101, 119] [49] = some [47, 109, 47, 110, 101, 119, 47, 49] ∧
+    strlcpyFits NAME_MAX1 [49] = some [49] ∧ flagsParse [49] = some MFlags.empty ∧
+    (eval (Proofs.msgEnv Proofs.examplePEnv Proofs.exampleOracles [47, 109, 47, 110, 101, 119, 47, 49])
+      (parseMessage [83, 117, 98, 106, 101, 99, 116, 58, 32, 120, 10, 10, 98, 10])
+      (.mtch 1 (.all 1) (.move 1 [92, 49])) 0
+      (parseMessage [83, 117, 98, 106, 101, 99, 116, 58, 32, 120, 10, 10, 98, 10])
+      { ml := [], flags := MFlags.empty }).1 = .match ∧
+    (matchesInterpolate (Proofs.msgEnv Proofs.examplePEnv Proofs.exampleOracles [47, 109, 47, 110, 101, 119, 47, 49])
+      (eval (Proofs.msgEnv Proofs.examplePEnv Proofs.exampleOracles [47, 109, 47, 110, 101, 119, 47, 49])
+        (parseMessage [83, 117, 98, 106, 101, 99, 116, 58, 32, 120, 10, 10, 98, 10])
+        (.mtch 1 (.all 1) (.move 1 [92, 49])) 0
+        (parseMessage [83, 117, 98, 106, 101, 99, 116, 58, 32, 120, 10, 10, 98, 10])
+        { ml := [], flags := MFlags.empty }).2.ml
+      (partMsg (parseMessage [83, 117, 98, 106, 101, 99, 116, 58, 32, 120, 10, 10, 98, 10])
+        ((getAttachments (parseMessage [83, 117, 98, 106, 101, 99, 116, 58, 32, 120, 10, 10, 98, 10])).getD []))).isNone
+      = true := by
+  simp only [eval]
   decide +kernel
 
 end Mdsort.Props
